@@ -366,7 +366,9 @@ func (u *UnitGen) cutLoop(fr *Frame, li *loopInfo, st *State) *State {
 	for k := range u.axiomDone {
 		savedAx[k] = true
 	}
+	nAbn := len(u.abnormal)
 	restore := func() {
+		u.abnormal = u.abnormal[:nAbn]
 		u.axiomDone = map[string]bool{}
 		for k := range savedAx {
 			u.axiomDone[k] = true
